@@ -3,6 +3,7 @@
 //! usage: vharness <family> --model <rfsm_model> --out <report.json> [--tier quick|thorough]
 //!                 [--seed N] [--replay file]
 mod c19;
+mod sysvars;
 mod content;
 mod dump;
 mod gen_doc;
@@ -97,6 +98,12 @@ fn main() {
         "c03" => int::run(&args, &mut model, "C03"),
         "c06" => int::run(&args, &mut model, "C06"),
         "c07" => int::run(&args, &mut model, "C07"),
+        "c09" => {
+            // In() / late binding under the interpreter model (vdm trace equality), then the real data models
+            let mut r = int::run(&args, &mut model, "C09");
+            sysvars::run_real(&args, &mut r);
+            r
+        }
         "c08" => {
             // vdm-driven trace correspondence of executable_content.rs, then the real data models
             let mut r = int::run(&args, &mut model, "C08");
